@@ -27,7 +27,7 @@ def make_class(rng, dim, nq, ns, foreign=False):
         ops[s] = {q: (kind if kind != 'mixed' else rng.choice('XYZ')) for q in supp}
     if foreign:
         s = rng.choice(stabs)
-        far = tuple(50 + rng.randint(0, 3) for _ in range(dim))
+        far = tuple(1000 + rng.randint(0, 3) for _ in range(dim))
         ops[s][far] = rng.choice('XYZ')
     k = rng.randint(1, 2)
     lx = [{q: rng.choice('XYZ') for q in rng.sample(qubits, rng.randint(1, min(nq, 4)))} for _ in range(k)]
